@@ -10,11 +10,11 @@ trap 'git -C /repo worktree remove --force "$wt"' EXIT
 cd "$wt" || exit 2
 if ! git apply "$in/patch.diff"; then echo "RESULT patch does not apply"; exit 1; fi
 echo "--- existing tests with the change ($mod)"
-(cd "$wt/$mod" && go test -vet=off -count=1 -timeout 20m ./... 2>&1 | grep -E "^(ok|FAIL|---|panic)" | head -20)
+(cd "$wt/$mod" && go test -vet=off -count=1 -timeout 20m ./... 2>&1 | grep -a -E "^(ok|FAIL|---|panic)" | head -20)
 existing=$?
 cp "$in"/*_test.go "$wt/$pkg/" 2>/dev/null
 echo "--- demo with the change (expect FAIL)"
-(cd "$wt/$pkg" && go test -vet=off -count=1 -timeout 10m -run "$re" "$@" . 2>&1 | grep -E "^(ok|FAIL|--- FAIL|panic)" | head -8)
+(cd "$wt/$pkg" && go test -vet=off -count=1 -timeout 10m -run "$re" "$@" . 2>&1 | grep -a -E "^(ok|FAIL|--- FAIL|panic)" | head -8)
 git apply -R "$in/patch.diff"
 echo "--- demo without the change (expect ok)"
-(cd "$wt/$pkg" && go test -vet=off -count=1 -timeout 10m -run "$re" "$@" . 2>&1 | grep -E "^(ok|FAIL|--- FAIL|panic)" | head -8)
+(cd "$wt/$pkg" && go test -vet=off -count=1 -timeout 10m -run "$re" "$@" . 2>&1 | grep -a -E "^(ok|FAIL|--- FAIL|panic)" | head -8)
